@@ -36,6 +36,10 @@ type Env struct {
 	bound   map[string]bool
 	depth   int
 	pattern *Expr
+	// at a call site the state in which the callee acquired its lock is unknown to the caller
+	lockedSnap *HeapSnap
+	calleeAnch map[string]*Anchor
+	calleeFn   *ssa.Function
 }
 
 func (e *Env) derive(st *State) *Env {
@@ -211,6 +215,24 @@ func (e *Env) anchor(x *Expr) *Anchor {
 		st = e.anchSt
 	}
 	key := fmt.Sprintf("%s#%d", x.Name, x.Int)
+	if e.calleeAnch != nil {
+		// a callee's contract applied at a call site: its internal calls are unknown to the caller
+		if a, ok := e.calleeAnch[key]; ok {
+			return a
+		}
+		if e.calleeFn == nil {
+			sfail("anchor @%s in a contract without a body", key)
+		}
+		sub := &Exec{eng: e.x.eng, root: e.calleeFn}
+		tmp := &State{anchors: map[string]*Anchor{}, heaps: st.heaps, epoch: st.epoch, clock: st.clock, alloc: st.alloc}
+		a := sub.phantomAnchor(tmp, x.Name, int(x.Int))
+		st.asserts = append(st.asserts, tmp.asserts...)
+		a.Called = reg.freshConst("called_"+lastComp(x.Name), SBool)
+		a.Before = e.lockedSnap
+		a.After = &HeapSnap{m: map[string]*HeapVer{}, epoch: reg.fresh("an"), clock: reg.freshConst("anclock", SInt)}
+		e.calleeAnch[key] = a
+		return a
+	}
 	if a, ok := st.anchors[key]; ok {
 		return a
 	}
@@ -682,7 +704,34 @@ func (e *Env) call(x *Expr) TV {
 	case "isnil":
 		return scBool(e.specEq(e.eval(args[0]), TV{Sc{IntLit(0)}, types.Typ[types.UntypedNil]}))
 	case "held":
-		return scBool(BoolLit(true)) // lock discipline is checked structurally
+		return scBool(BoolLit(e.st.held[e.lockKey(args[0])]))
+	case "locked":
+		// value of e when the (most recent) lock was acquired
+		snap := e.lockedSnap
+		if snap == nil {
+			snap = e.st.lastLock
+		}
+		if snap == nil {
+			sfail("locked(e) without a lock acquisition on this path")
+		}
+		n := *e
+		n.cur = snap
+		n.inOld = false
+		return n.eval(args[0])
+	case "apply":
+		f := e.term(args[0])
+		ts := []Term{f}
+		for _, a := range args[1:] {
+			ts = append(ts, e.st.flatten(e.eval(a).V)...)
+		}
+		return scBool(applyUF(SBool, ts))
+	case "applyInt":
+		f := e.term(args[0])
+		ts := []Term{f}
+		for _, a := range args[1:] {
+			ts = append(ts, e.st.flatten(e.eval(a).V)...)
+		}
+		return scInt(applyUF(SInt, ts))
 	case "allocated":
 		r := e.refOf(e.eval(args[0]))
 		return scBool(Term{fmt.Sprintf("(select %s %s)", e.st.alloc0.Name, r.S), SBool})
@@ -740,4 +789,13 @@ func (e *Env) specFn(f *SpecFn, x *Expr) TV {
 	}
 	rs, rt := specSort(f.Ret)
 	return TV{Sc{reg.uf("sf"+mangle(f.Name)[1:], rs, args...)}, rt}
+}
+
+// lockKey names the mutex denoted by an expression of the form x.mutexField.
+func (e *Env) lockKey(x *Expr) string {
+	if x.Op != "sel" {
+		sfail("held(x.mutex)")
+	}
+	base := e.eval(x.Args[0])
+	return e.refOf(base).S + "." + x.Name
 }
